@@ -19,7 +19,7 @@ META = dict(
               "themselves; encodings: standard, ORCA, PSI4 <= 1.0, Turbomole, CFOUR 2.1, unnormalised contractions, "
               "PSI4 <= 1.3.2, and a corrupted one (factor 2 on one shell); exponents symbolic (all reals in [0.2, 30]) for "
               "the s/p cases, from a rational grid otherwise; norm_threshold 1e-4; restricted and "
-              "unrestricted; the real _fix_molden_from_buggy_codes (with compute_overlap and the _fix_* helpers) runs on "
+              "unrestricted (beta orbitals = the alpha ones in reverse order, both channels compared); the real _fix_molden_from_buggy_codes (with compute_overlap and the _fix_* helpers) runs on "
               "the terms; Molden and Molekel readers share this function",
         thorough="adds the ORCA encoding with s and p shells together, both exponents symbolic, and the thresholds 1e-5 / 1e-3 for "
                  "every grid case"),
